@@ -93,6 +93,10 @@ var lazyPreamble = []struct {
 		"(assert (forall ((x Int) (y Int)) (! (=> (and (>= x 0) (>= y 0)) (and (>= (bitand x y) 0) (<= (bitand x y) x) (<= (bitand x y) y))) :pattern ((bitand x y)))))",
 		"(assert (forall ((x Int)) (! (= (bitand x 0) 0) :pattern ((bitand x 0)))))",
 	}},
+	{"ix", []string{
+		"(declare-fun ix (Int Int) Int)",
+		"(assert (forall ((o Int) (j Int)) (! (= (ix o j) (+ o j)) :pattern ((ix o j)))))",
+	}},
 	{"bitor", []string{"(declare-fun bitor (Int Int) Int)"}},
 	{"bitxor", []string{"(declare-fun bitxor (Int Int) Int)"}},
 	{"bitandnot", []string{"(declare-fun bitandnot (Int Int) Int)"}},
